@@ -25,6 +25,10 @@ type KACase struct {
 	KAMs   int     `json:"keepalive_ms"`
 	Conns  [][]int `json:"conns"` // per connection: gaps (ms) before each exchange
 	WSPing bool    `json:"ws_ping,omitempty"`
+	// WSKA: the upgrader's own keep-alive setting: "" = same as the engine's, "none" = explicitly 0 (the
+	// WebSocket connection must then outlive the HTTP keep-alive time the engine armed at accept),
+	// "double" = twice the engine's
+	WSKA string `json:"ws_keepalive,omitempty"`
 }
 
 func runKA(c KACase) vlib.Result {
@@ -42,6 +46,20 @@ func runKA(c KACase) vlib.Result {
 	mux.HandleFunc("/", func(w http.ResponseWriter, r *http.Request) { _, _ = w.Write([]byte("ok")) })
 	u := websocket.NewUpgrader()
 	u.KeepaliveTime = ka
+	httpKA := ka
+	if c.Kind == "ws" {
+		switch c.WSKA {
+		case "none":
+			u.KeepaliveTime = 0
+		case "double":
+			u.KeepaliveTime = 2 * ka
+			ka = 2 * ka // the time that governs the upgraded connections
+		}
+	}
+	noKA := c.Kind == "ws" && c.WSKA == "none"
+	if c.WSKA != "" && c.Kind == "ws" {
+		res.Classes = append(res.Classes, "ws-keepalive="+c.WSKA)
+	}
 	u.OnMessage(func(c *websocket.Conn, mt websocket.MessageType, data []byte) { _ = c.WriteMessage(mt, data) })
 	mux.HandleFunc("/ws", func(w http.ResponseWriter, r *http.Request) {
 		_, _ = u.Upgrade(w, r, nil)
@@ -81,7 +99,7 @@ func runKA(c KACase) vlib.Result {
 			}
 			for gi, gap := range gaps {
 				time.Sleep(time.Duration(gap) * time.Millisecond)
-				if time.Since(lastAnswered) > ka-15*time.Millisecond {
+				if !noKA && time.Since(lastAnswered) > ka-15*time.Millisecond {
 					// too late to count as a renewal (scheduling delay): stop exchanging, just observe the close
 					break
 				}
@@ -114,6 +132,27 @@ func runKA(c KACase) vlib.Result {
 				}
 				lastSent, lastAnswered = sent, time.Now()
 				nts[ci] = true
+			}
+			if noKA {
+				// keep-alive disabled for the upgraded connection: it must stay open well beyond the HTTP
+				// keep-alive time that was armed when the connection was accepted, silent or not
+				_ = conn.SetDeadline(time.Now().Add(2*httpKA + 100*time.Millisecond))
+				_, rerr := ws.ReadFrame()
+				if ne, ok := rerr.(net.Error); !ok || !ne.Timeout() {
+					errs[ci] = fmt.Errorf("connection %d: WebSocket connection with keep-alive disabled (upgrader KeepaliveTime 0) was closed %v after its last exchange: %v (HTTP keep-alive time %v: a stale timer?)", ci, time.Since(lastAnswered), rerr, httpKA)
+					return
+				}
+				_ = conn.SetDeadline(time.Now().Add(3 * time.Second))
+				if err := ws.WriteMessage(vlib.OpText, []byte("still here")); err != nil {
+					errs[ci] = fmt.Errorf("connection %d: WebSocket connection with keep-alive disabled could not send after a silence of %v: %v", ci, time.Since(lastAnswered), err)
+					return
+				}
+				if _, err := ws.ReadFrame(); err != nil {
+					errs[ci] = fmt.Errorf("connection %d: WebSocket connection with keep-alive disabled got no echo after a silence of %v: %v", ci, time.Since(lastAnswered), err)
+					return
+				}
+				nts[ci] = true
+				return
 			}
 			// now stay silent: the server must close after the keep-alive time, not earlier
 			_ = conn.SetDeadline(time.Now().Add(ka + 3*time.Second))
@@ -160,6 +199,9 @@ func genKA(t *rapid.T) KACase {
 	c.IOMod = rapid.SampledFrom([]int{nbhttp.IOModNonBlocking, nbhttp.IOModNonBlocking, nbhttp.IOModBlocking}).Draw(t, "iomod")
 	c.KAMs = rapid.SampledFrom([]int{100, 150, 200, 300}).Draw(t, "ka")
 	c.WSPing = rapid.Bool().Draw(t, "wsping")
+	if c.Kind == "ws" {
+		c.WSKA = rapid.SampledFrom([]string{"", "none", "double"}).Draw(t, "wska")
+	}
 	n := rapid.IntRange(4, 12).Draw(t, "nconns")
 	for i := 0; i < n; i++ {
 		var gaps []int
